@@ -20,7 +20,7 @@ import props.c13 as c13
 import props.rel as rel
 
 LEVEL = "model_checking"
-STREAM_CFG = "SPECIFICATION StreamSpec\nINVARIANTS PrefixOk EndOk\nPROPERTY Terminates\nCONSTANTS Script <- McScript\n MaxTake = %d\n N = 1\n"
+STREAM_CFG = "SPECIFICATION StreamSpec\nINVARIANTS PrefixOk EndOk\nPROPERTY Terminates\nCONSTANTS Script <- McScript\n MaxTake = %d\n"
 
 
 def nozone(x):
@@ -60,8 +60,7 @@ def run(ctx):
     root = os.path.join(ctx.scratch, "c26")
     os.makedirs(root)
     # ---------------- (i) messages ----------------
-    mod = "---- MODULE McWireCases ----\nEXTENDS PluginWireCases\nMcScript == <<\"r1\">>\n====\n"
-    ctx.tlc_ok("McWireCases", "INIT SInit\nNEXT SNext\nCONSTANTS Script <- McScript\n MaxTake = 1\n N = %d\n" % (2000 if thorough else 400), files={"McWireCases.tla": mod}, workers=1, timeout=1800, deadlock=False)
+    ctx.tlc_ok("PluginWireCases", "INIT Init\nNEXT Next\nCONSTANTS N = %d\n" % (2000 if thorough else 400), workers=1, timeout=1800)
     wire = ctx.read_ndjson("c26_wire.ndjson")
     out = ctx.scratch + "/c26_wire_out.ndjson"
     ctx.driver("wire-roundtrip", ["-in", ctx.specfile("c26_wire.ndjson"), "-out", out], timeout=1800)
@@ -143,7 +142,7 @@ def run(ctx):
     for k, s in enumerate(scripts[:7]):
         abstract = ", ".join('"ERR"' if m["m"] == "err" else '"%s%d"' % (m["m"], j) for j, m in enumerate(s))
         for take in sorted(set([0, 1, len(s) + 1])):
-            mod = "---- MODULE McStream ----\nEXTENDS PluginWire\nMcScript == <<%s>>\n====\n" % abstract
+            mod = "---- MODULE McStream ----\nEXTENDS PluginStream\nMcScript == <<%s>>\n====\n" % abstract
             r = ctx.tlc_ok("McStream", STREAM_CFG % take, name="McStream_%d_%d" % (k, take), files={"McStream.tla": mod}, deadlock=False, timeout=600)
             ctx.cover_tlc(r)
             states += r.distinct
